@@ -169,6 +169,19 @@ def probe_projects():
         add("channel-type", cls, use, defs + "use tauri::ipc::Channel;\n" + rg.command_src("get_item", [("id", "i32"), ("ch", "Channel<%s>" % use)], "Item"))
         add("event-payload-type", cls, use, defs + rg.command_src("get_item", [("id", "i32")], "Item") +
             "pub fn notify(app: tauri::AppHandle, p: %s) {\n    app.emit(\"gen\", p).unwrap();\n}\n\n" % use)
+    # --- event payloads given by expressions of every shape: whatever type the tool infers for them, it must print TypeScript
+    for (setup, expr) in [("let p = models::Progress::new();", "&p"), ("let p = crate::models::Progress::default();", "p.clone()"),
+                          ("let p = std::collections::HashMap::<String, models::Item>::new();", "&p"), ("let p = Vec::<models::Item>::with_capacity(4);", "p"),
+                          ("let p = <models::Progress as Default>::default();", "p"), ("", "models::Progress { done: 1 }"), ("", "crate::models::Progress::new()"),
+                          ("", "Some(models::Item { a: 1 })"), ("", "vec![1, 2, 3]"), ("", "[1u8; 4]"), ("", "&[1, 2][..]"), ("", "(1, \"two\", 3.0)"),
+                          ("", "models::Kind::Alpha"), ("", "x as i64"), ("", "-1"), ("", "!flag"), ("", "a + b"), ("", "if flag { 1 } else { 2 }"),
+                          ("", "match n { 0 => \"zero\", _ => \"many\" }"), ("", "|| 1"), ("", "async { 1 }.await"), ("", "r#\"raw \"string\"\"#"), ("", "b\"bytes\""),
+                          ("", "'c'"), ("", "1_000u64"), ("", "1e-3"), ("", "json!({ \"a\": 1 })"), ("", "self::CONST_VALUE"), ("", "*boxed"), ("", "items[0].name.as_str()"),
+                          ("let p: models::Progress = todo!();", "p"), ("let p: std::vec::Vec<crate::models::Item> = vec![];", "&p"), ("let p: &'static str = \"x\";", "p"),
+                          ("let p: [u8; 4] = [0; 4];", "p"), ("let p: Box<dyn std::error::Error> = todo!();", "p.to_string()")]:
+        body = "%s\n    app.emit(\"payload-probe\", %s).unwrap();" % (setup, expr)
+        add("event-payload-expression", "inferred-from-expression", (setup + " " + expr).strip(), rg.struct_src("Item", [("a", "i32")]) + base_cmd() +
+            "pub fn notify(app: tauri::AppHandle, flag: bool, n: usize, x: i32, a: i32, b: i32) {\n    %s\n}\n\n" % body)
     # --- events
     for cls, names in EVENT_NAMES:
         for nm in names:
